@@ -429,6 +429,15 @@ def run_chunk(chunk):
         specs.append({'eid': 0x50000A01, 'plid': 0x50000A01, 'sections': [{'t': 'PS'}] + unknown})
         specs.append({'eid': 0x50000A02, 'plid': 0x50000A02, 'creator': 'H', 'comp': 0x4142, 'sections': unknown[:3] + [
             {'t': 'ED', 'creator': 'x', 'comp': 0x2000, 'sub': 3, 'payload': b'"quoted": {text}\n\\ back'.hex()}]})
+        # "arbitrary nesting": documents nested up to and beyond what the final serialiser can print, through the built-in
+        # format and through plug-in output (whatever the tool decides to show, the printed text must be that document)
+        for depth in (2, 50, 200, 600, 900, 980, 1000, 1050, 1100, 1200, 1300, 1400, 1490, 1600, 3000):
+            for shape in (b'[' * depth + b']' * depth, b'{"k":' * depth + b'1' + b'}' * depth):
+                if len(shape) > 60000:
+                    continue
+                specs.append({'eid': 0x50000A10, 'plid': 0x50000A10, 'sections': [
+                    {'t': 'UD', 'comp': 0x2000, 'sub': 1, 'payload': shape.hex()},
+                    {'t': 'UD', 'comp': 0xE500, 'sub': 3, 'payload': shape.hex()}]})
         for spec in specs:
             for plugins in (True, False):
                 _do(res, {'k': 'equal_doc', 'spec': spec, 'plugins': plugins}, '"doc', every=5)
